@@ -90,6 +90,16 @@ def main():
             print(out3[-1500:])
         meta["verified"] = ok
         d = os.path.join(V, "seeded", name)
+        try:
+            old = json.load(open(os.path.join(d, "meta.json")))
+            hist = old.get("history", [])
+            if "check" in old:
+                hist.append({"verif_commit": old.get("verif_commit"), "verdict": old["check"]["verdict"], "seconds": old["check"].get("seconds")})
+            meta["history"] = hist
+        except (OSError, ValueError):
+            pass
+        rc_, out_ = sh(["git", "-C", V, "rev-parse", "--short", "HEAD"])
+        meta["verif_commit"] = out_.strip()
         os.makedirs(os.path.join(d, "demo"), exist_ok=True)
         shutil.copy(patch, os.path.join(d, "patch.diff"))
         for src, rel in demos:
